@@ -120,7 +120,7 @@ InitCache(d, cs, ok) ==
 Fits(b, c) == curs[c].len <= Room(b)
 CanAppend(c) == curs[c].base # STALE
 
-Append(b, c, ok) ==
+BufAppend(b, c, ok) ==
     /\ CanAppend(c)
     /\ ok <=> Fits(b, c)
     /\ ok => Readable(curs[c])
@@ -206,7 +206,8 @@ WriteBytes(b, bytes, n, ok) ==
     /\ bufs' = IF ok THEN [bufs EXCEPT ![b].data = @ \o bytes] ELSE bufs
     /\ UNCHANGED <<curs, src>>
 
-Write(b, off, n, ok) == WriteBytes(b, IF n <= Len(src) THEN SubSeq(src, off + 1, off + n) ELSE <<>>, n, ok)
+Write(b, off, n, ok) == /\ (n <= 4096) => off + n <= Len(src)          \* environment: the source array is readable
+                        /\ WriteBytes(b, IF n <= 4096 THEN SubSeq(src, off + 1, off + n) ELSE <<>>, n, ok)
 WriteU8(b, v, ok) == WriteBytes(b, <<v>>, 1, ok)
 WriteU8N(b, v, n, ok) == WriteBytes(b, IF n <= HALF - 1 /\ n <= 4096 THEN [i \in 1..n |-> v] ELSE <<>>, n, ok)
 (* big-endian integers: vs = the value's bytes, most significant first (be24 gets 4: a non-zero top byte must fail) *)
@@ -220,6 +221,7 @@ WriteFromWholeCursor(b, c, ok) ==
     /\ WriteBytes(b, CBytes(curs[c]), curs[c].len, ok)
 
 (* write_to_capacity cannot fail: writes min(room, cursor length) bytes, advances the cursor, returns the written part *)
+WtcRv(b, c) == IF curs[c].len > HALF THEN NullCur ELSE Sub(curs[c], 0, Min(Room(b), curs[c].len))
 WriteToCapacity(b, c, d, rv) ==
     /\ curs[c].base # STALE /\ d # c
     /\ IF curs[c].len > HALF
@@ -263,6 +265,8 @@ CurCopy(d, c) == curs' = [curs EXCEPT ![d] = curs[c]] /\ UNCHANGED <<bufs, src>>
 
 (* advance / advance_nospec: refused (NULL result, cursor untouched) when n exceeds the length or either exceeds SIZE_MAX/2 *)
 AdvOk(cu, n) == ~(cu.len > HALF \/ n > HALF \/ n > cu.len)
+AdvRv(c, n) == IF AdvOk(curs[c], n) THEN Sub(curs[c], 0, n) ELSE NullCur
+ReadOut(c, n) == IF n > 0 /\ n <= 4096 /\ AdvOk(curs[c], n) THEN Take(CBytes(curs[c]), n) ELSE <<>>
 CurAdvance(c, n, d, rv) ==
     /\ curs[c].base # STALE /\ d # c
     /\ IF AdvOk(curs[c], n)
@@ -321,24 +325,22 @@ SplitEntries(s, ch, n) ==
     IF n = 0 \/ Len(g) <= n THEN g
     ELSE Take(g, n) \o << [off |-> g[n + 1].off, len |-> Len(s) - g[n + 1].off] >>
 
-(* next_split called k times from a zeroed substr: res[i] = [rv, off, len, null] *)
+(* next_split called k times from a zeroed substr: res[i] = [rv, off, len, null] (off relative to the input) *)
+NextSplitExp(c, ch, k) ==
+    LET g == Segs(CBytes(curs[c]), ch)
+        m == Min(k, Len(g) + 1) IN
+    [i \in 1..m |-> IF i <= Len(g) THEN [rv |-> 1, off |-> g[i].off, len |-> g[i].len, null |-> 0]
+                    ELSE [rv |-> 0, off |-> 0, len |-> 0, null |-> 1]]        \* exhausted: substr zeroed
 NextSplit(c, ch, k, res) ==
     /\ Readable(curs[c])
-    /\ LET g == Segs(CBytes(curs[c]), ch)
-           m == Min(k, Len(g) + 1) IN
-       /\ Len(res) = m
-       /\ \A i \in 1..m :
-            IF i <= Len(g)
-            THEN /\ res[i].rv = 1 /\ res[i].len = g[i].len /\ res[i].null = 0
-                 /\ (curs[c].base # NULLB) => res[i].off = g[i].off
-            ELSE res[i].rv = 0 /\ res[i].len = 0 /\ res[i].null = 1     \* exhausted: substr zeroed
+    /\ res = NextSplitExp(c, ch, k)
     /\ UNCHANGED bbvars
 
 (* split into a static list of capacity L: all entries, or failure with a prefix of them (documented partial result) *)
 SplitOnCharN(c, ch, n, L, ok, ents) ==
     /\ Readable(curs[c])
     /\ LET e == SplitEntries(CBytes(curs[c]), ch, n)
-           same(x, y) == x.len = y.len /\ (curs[c].base # NULLB => x.off = y.off) IN
+           same(x, y) == x.len = y.len /\ x.off = y.off IN
        /\ ok <=> Len(e) <= L
        /\ Len(ents) <= Len(e) /\ Len(ents) <= L
        /\ ok => Len(ents) = Len(e)
@@ -351,12 +353,14 @@ RECURSIVE LeadCount(_, _), TrailCount(_, _)
 LeadCount(s, p) == IF s = <<>> \/ ~Pred(p, Head(s)) THEN 0 ELSE 1 + LeadCount(Tail(s), p)
 TrailCount(s, p) == IF s = <<>> \/ ~Pred(p, s[Len(s)]) THEN 0 ELSE 1 + TrailCount(Take(s, Len(s) - 1), p)
 (* which: 0 left, 1 right, 2 both *)
+TrimRv(c, which, p) ==
+    LET bs == CBytes(curs[c])
+        l == IF which \in {0, 2} THEN LeadCount(bs, p) ELSE 0
+        r == IF which \in {1, 2} THEN TrailCount(Drop(bs, l), p) ELSE 0 IN
+    Sub(curs[c], l, Len(bs) - l - r)
 Trim(c, which, p, d, rv) ==
     /\ Readable(curs[c]) /\ d # c
-    /\ LET bs == CBytes(curs[c])
-           l == IF which \in {0, 2} THEN LeadCount(bs, p) ELSE 0
-           r == IF which \in {1, 2} THEN TrailCount(Drop(bs, l), p) ELSE 0 IN
-       rv = Sub(curs[c], l, Len(bs) - l - r)
+    /\ rv = TrimRv(c, which, p)
     /\ curs' = SetCur(curs, d, rv)
     /\ UNCHANGED <<bufs, src>>
 
@@ -396,6 +400,10 @@ StartsWith(c, p, ic, r) ==
 
 (* find_exact: first occurrence; result view = input from the match to the end. An empty needle is left open. *)
 MatchAt(x, y, k) == k + Len(y) <= Len(x) /\ SubSeq(x, k + 1, k + Len(y)) = y      \* k 0-based
+FindM(c, f) == LET x == CBytes(curs[c])  y == CBytes(curs[f]) IN {k \in 0..Len(x) : MatchAt(x, y, k)}
+FindRv(c, f) == LET M == FindM(c, f) IN
+                IF M = {} THEN NullCur
+                ELSE LET k == CHOOSE k \in M : \A j \in M : k <= j IN Sub(curs[c], k, curs[c].len - k)
 FindExact(c, f, d, ok, rv) ==
     /\ Readable(curs[c]) /\ Readable(curs[f]) /\ d # c /\ d # f
     /\ LET x == CBytes(curs[c])  y == CBytes(curs[f])
@@ -423,6 +431,8 @@ ParseRun(s, w, base) ==                                    \* [ok, w]
     ELSE IF HexVal(Head(s)) >= base THEN [ok |-> FALSE, w |-> w]
     ELSE LET nw == WMulAdd(w, base, HexVal(Head(s))) IN
          IF ~FitsU64(nw) THEN [ok |-> FALSE, w |-> nw] ELSE ParseRun(Tail(s), nw, base)
+ParseExp(c, base) == LET bs == CBytes(curs[c])  r == ParseRun(bs, WZero, base) IN
+                     [ok |-> bs # <<>> /\ r.ok, w |-> r.w]
 ParseU64(c, base, ok, val) ==
     /\ Readable(curs[c])
     /\ LET bs == CBytes(curs[c])
